@@ -23,6 +23,7 @@ type caseDesc struct {
 }
 
 type env struct {
+	hung     bool // a run did not return: stop generating, report what we have
 	o        *vh.Opts
 	sum      *vh.Summary
 	variants []iox.Variant
@@ -71,6 +72,7 @@ func (e *env) checkInput(r *vh.Rng, v iox.Variant, in []byte, scheds []iox.Sched
 	for _, s := range base {
 		if s.Kind == "panic" || s.Kind == "hang" {
 			e.sum.Fail("transform "+s.Kind+" ("+s.Txt+")", caseDesc{v.Name, v.Schema, hex.EncodeToString(in), scheds[0], nil}, nil)
+			e.hung = e.hung || s.Kind == "hang"
 			return false, base
 		}
 	}
@@ -84,7 +86,13 @@ func (e *env) checkInput(r *vh.Rng, v iox.Variant, in []byte, scheds []iox.Sched
 		}
 		scc := sc
 		vh.Current(e.o, caseDesc{v.Name, v.Schema, hex.EncodeToString(in), scheds[0], &scc})
+		if e.hung {
+			break
+		}
 		got, _ := iox.Run(ls, v.FmtIdx, iox.NewChunkReader(in, sc), maxReads(in), 2)
+		if len(got) == 1 && got[0].Kind == "hang" {
+			e.hung = true
+		}
 		if d := iox.FirstDiff(base, got); d >= 0 {
 			sc := sc
 			e.sum.Fail(fmt.Sprintf("transcripts differ between schedules %q and %q of the same bytes (first difference at Read #%d)", scheds[0].Name, sc.Name, d+1),
@@ -186,7 +194,7 @@ func main() {
 
 	// ---- generated inputs x schedules ----
 	total := o.Count(900, 40000)
-	for c := 0; c < total; c++ {
+	for c := 0; c < total && !e.hung; c++ {
 		v := e.variants[r.Pick(len(e.variants))]
 		gi := iox.GenInput2(r, v)
 		in, kind := gi.In, gi.Kind
